@@ -23,8 +23,18 @@ TLC exports every program of the family, they are executed like the form cases
 and their outcomes validated by Natives_Trace, which re-derives the heap from
 the recorded steps.  The wide pool of the function sweep holds such values too.
 
-The decision is the exception class leaving Interpreter.interpret and the wall
-clock bound per call.  Where Forms.tla predicts value-vs-error and the code
+Round 3: spec/FormsCall.tla (+ FormsCallOps.tla) models how the arguments of a
+call reach the parameters (positionally, by name, rest parameter); its decided
+calls are run on a probe function (recorded bindings validated by
+Natives_Trace) and every function of the sweep is also called in the shapes
+that bind parameters no positional call reaches.  FormsOps has both booleans
+and the forms in which a guard meets the pool value on a later pass.  A case
+holding a huge int that does not end is excused only on evidence that its
+result grows with the number (Natives_Trace!ScaledOK).  Time bounds are
+processor time of the worker; every probe that did not end is re-run alone.
+
+The decision is the exception class leaving Interpreter.interpret and the
+processor-time bound per call.  Where Forms.tla predicts value-vs-error and the code
 differs, that is drift, never a violation.
 """
 import concurrent.futures
